@@ -739,6 +739,11 @@ pub fn generate_code(context: &Context) -> Result<u32, &'static str>
             "[ref: 21] Num. inserted reference(s): {}",
             reference_updates.num_inserted_references
         );
+
+        if reference_updates.failure
+        {
+            return Err("Failed to update one or more files");
+        }
     }
     else
     {
